@@ -204,14 +204,53 @@ class CaseCtx:
         if abort:
             raise CaseAbort()
 
+    # -- memory layouts: values are what matters, not strides; every 2-D+ array handed to the code under test through
+    #    c.call gets one of three layouts (C, Fortran, strided view), chosen deterministically per call
+    relayout = True
+
+    def _layout(self, arr):
+        if not (self.relayout and isinstance(arr, np.ndarray) and arr.ndim >= 2 and arr.size > 1 and arr.dtype != object):
+            return arr
+        self._lay = getattr(self, "_lay", 0) + 1
+        mode = (self._lay + int(arr.size)) % 3
+        if mode == 1:
+            self.cells.add("layout=F")
+            return np.asfortranarray(arr)
+        if mode == 2:
+            self.cells.add("layout=strided-view")
+            big = np.empty(tuple(2 * s for s in arr.shape), dtype=arr.dtype)
+            view = big[tuple(slice(None, None, 2) for _ in arr.shape)]
+            view[...] = arr
+            return view
+        return arr
+
+    # -- purity: arrays handed to the code under test must come back byte-identical
+    def _snapshot(self, a, k):
+        snap = []
+        for name, x in list(enumerate(a)) + list(k.items()):
+            if isinstance(x, np.ndarray) and x.dtype != object and x.size <= 2_000_000:
+                snap.append((name, x, x.tobytes()))
+        return snap
+
+    def _verify_unchanged(self, snap, where):
+        for name, x, b in snap:
+            if x.tobytes() != b:
+                self.require(False, f"{where} never modifies arrays supplied by the caller",
+                             mechanism=f"caller-array-modified:{where}", argument=str(name))
+
     # -- running the code under test
     def call(self, fn, *a, _where=None, _raises_ok=(), **k):
         """Call the code under test.  An exception is a violation of 'returns without
         error' unless its type is in ``_raises_ok`` (then UnderTestRaised is re-raised for
         the monitor to handle)."""
         where = _where or getattr(fn, "__qualname__", getattr(fn, "__name__", str(fn)))
+        a = tuple(self._layout(x) for x in a)
+        k = {kk: self._layout(v) for kk, v in k.items()}
+        before = self._snapshot(a, k)
         try:
-            return fn(*a, **k)
+            res = fn(*a, **k)
+            self._verify_unchanged(before, where)
+            return res
         except CaseAbort:
             raise
         except BaseException as e:  # noqa
@@ -228,6 +267,8 @@ class CaseCtx:
 
     def try_call(self, fn, *a, **k):
         """Call the code under test, return (ok, value_or_exception) without judging."""
+        a = tuple(self._layout(x) for x in a)
+        k = {kk: self._layout(v) for kk, v in k.items()}
         try:
             return True, fn(*a, **k)
         except CaseAbort:
